@@ -191,11 +191,95 @@ class SymListMixin:
         st.assume(OVER)
         return r
 
+    def exc_model(self, st, site):
+        """an exception that an ASSUMED MODEL deliberately allows (documented behaviour of the library call): a real path, no marker"""
+        t, c = self.uni.any_exception()
+        s2 = st.fork().assume(c)
+        from pyvc.values import VExc
+        self.raise_in(s2, VExc(t, {"site": site}))
+        self.exc_any_sites.append(site)
+
+    def loop_spec(self, node):
+        auto = getattr(self, "_auto_specs", {}).get(id(node))
+        return auto if auto is not None else super().loop_spec(node)
+
     def symbolic_for(self, s, st, it):
         spec = self.loop_spec(s)
         if spec is None or spec.inv is None:
-            st.assume(OVER)
+            auto = None
+            try:
+                auto = self._running_max_invariant(s, st, it)
+            except (Unsupported, z3.Z3Exception, KeyError, AttributeError):
+                auto = None
+            if auto is not None:
+                self._auto_specs = {**getattr(self, "_auto_specs", {}), id(s): auto}
+            else:
+                st.assume(OVER)
         return super().symbolic_for(s, st, it)
+
+    def _running_max_invariant(self, s, st, it):
+        """A `for` loop over a symbolic sequence that only updates one integer accumulator: try the invariant
+        "acc is the maximum of its initial value and g(x) over the processed prefix" for every integer expression g(x) of the
+        body.  A candidate is used ONLY after its inv-init / inv-preserve VCs have been proved here (Houdini style), so this
+        never assumes anything unproved; otherwise the loop is cut as before (over-approximation marker)."""
+        from pyvc import solve
+        from pyvc.contracts import LoopSpec
+        if not isinstance(s.target, ast.Name) or s.orelse:
+            return None
+        probe = st.fork()
+        view = self.seq_view(probe, it)
+        if view is None or self.mutated_refs(s.body, st):
+            return None
+        length, elem = view
+        accs = [nm for nm in sorted(self.assigned_names(s.body) - {s.target.id}) if st.lookup(nm) is not None]
+        if len(accs) != 1 or not isinstance(st.lookup(accs[0]), VInt):
+            return None
+        acc = accs[0]
+        a0 = ops.int_term(st.lookup(acc))
+        k = z3.Int(fresh_name("fk"))
+        cands, seen = [], set()
+        for node in [n for b in s.body for n in ast.walk(b) if isinstance(n, ast.expr)]:
+            src = ast.unparse(node)
+            if src in seen or s.target.id not in {x.id for x in ast.walk(node) if isinstance(x, ast.Name)} or acc in {x.id for x in ast.walk(node) if isinstance(x, ast.Name)}:
+                continue
+            seen.add(src)
+            p2 = st.fork()
+            p2.frames.append(Frame({s.target.id: elem(k)}, len(p2.frames) - 1, p2.frame.fnode))
+            p2.assume(z3.And(k >= 0, k < length))
+            self.sinks.append([])
+            try:
+                v, _facts = self._eval_pure(node, p2, len(p2.pc), "fold candidate")
+            except Unsupported:
+                continue
+            finally:
+                self.sinks.pop()
+            if isinstance(v, VInt):
+                cands.append((src, ops.int_term(v)))
+        for src, g in cands[:6]:
+            gk = (lambda j, g=g: z3.substitute(g, (k, j)))
+
+            def inv(lc, gk=gk):
+                a = ops.int_term(lc[acc])
+                q, w = z3.Int(fresh_name("q")), z3.Int(fresh_name("w"))
+                return z3.And(a >= a0, z3.ForAll([q], z3.Implies(z3.And(q >= 0, q < lc.i), gk(q) <= a)),
+                              z3.Or(a == a0, z3.Exists([w], z3.And(w >= 0, w < lc.i, gk(w) == a))))
+            spec = LoopSpec(inv=inv, label=f"auto-running-max-of-{acc}")
+            saved_obls, saved_auto = self.obls, getattr(self, "_auto_specs", {})
+            self.obls, self._auto_specs = {}, {**saved_auto, id(s): spec}
+            self.sinks.append([])
+            ok = False
+            try:
+                super().symbolic_for(s, st.fork(), it)
+                vcs = [vc for ob in self.obls.values() if ob.kind in ("inv-init", "inv-preserve") for vc in ob.vcs]
+                ok = bool(vcs) and all(solve.check_vc(vc.pc, vc.goal if not hasattr(vc.goal, "t") else vc.goal.t, 5000, want_model=False, use_cvc5=False).status == "proved" for vc in vcs)
+            except Unsupported:
+                ok = False
+            finally:
+                self.sinks.pop()
+                self.obls, self._auto_specs = saved_obls, saved_auto
+            if ok:
+                return spec
+        return None
 
     def try_concrete_while(self, s, st, limit=4096):
         r = super().try_concrete_while(s, st, limit)
